@@ -565,6 +565,61 @@ func init() {
 						return true
 					})
 				}
+				// ... and a transaction is either appended there or filed under its sender, never both: within one
+				// iteration no path leads from the append to the filing (or back)
+				for _, lp := range core.LoopsIn(f) {
+					rs, ok := lp.(*ast.RangeStmt)
+					if !ok || !core.IsObj("param:0")(c, rs.X) {
+						continue
+					}
+					val, _ := rs.Value.(*ast.Ident)
+					if val == nil {
+						continue
+					}
+					isVal := func(e ast.Expr) bool {
+						id, ok := ast.Unparen(e).(*ast.Ident)
+						return ok && c.Info.ObjectOf(id) == c.Info.ObjectOf(val)
+					}
+					g := f.Graph()
+					var appends, files []*core.GNode
+					for _, n := range g.Nodes {
+						as, ok := n.Ast.(*ast.AssignStmt)
+						if !ok || !inside(rs.Body, n.Ast) || len(as.Rhs) != 1 || len(as.Lhs) != 1 {
+							continue
+						}
+						if call, ok := ast.Unparen(as.Rhs[0]).(*ast.CallExpr); ok && core.IsBuiltinCall(c.Info, call, "append") && len(call.Args) == 2 && isVal(call.Args[1]) {
+							appends = append(appends, n)
+						} else if _, isIdx := ast.Unparen(as.Lhs[0]).(*ast.IndexExpr); isIdx && isVal(as.Rhs[0]) {
+							files = append(files, n)
+						}
+					}
+					sameIteration := func(e *core.GEdge) bool { return !inside(rs.Body, e.To.Ast) } // leaving the body ends the iteration
+					label := "sortEthSignTyTx: a transaction is appended directly or filed under its sender, not both"
+					bad := ""
+					for _, a := range appends {
+						reach := g.Reachable([]*core.GNode{a}, sameIteration, nil)
+						for _, fl := range files {
+							if reach[fl] {
+								bad = fmt.Sprintf("after `%s` (%s) the same iteration still reaches `%s` (%s): the transaction is returned twice", core.ExprStr(a.Ast), r.W.Pos(a.Ast.Pos()), core.ExprStr(fl.Ast), r.W.Pos(fl.Ast.Pos()))
+							}
+						}
+					}
+					for _, fl := range files {
+						reach := g.Reachable([]*core.GNode{fl}, sameIteration, nil)
+						for _, a := range appends {
+							if reach[a] {
+								bad = fmt.Sprintf("after `%s` (%s) the same iteration still reaches `%s` (%s): the transaction is returned twice", core.ExprStr(fl.Ast), r.W.Pos(fl.Ast.Pos()), core.ExprStr(a.Ast), r.W.Pos(a.Ast.Pos()))
+							}
+						}
+					}
+					if bad == "" && len(appends) > 0 && len(files) > 0 {
+						r.OK(label, r.W.Pos(rs.Pos()), fmt.Sprintf("%d append(s) and %d filing(s) on disjoint paths of the iteration", len(appends), len(files)))
+					} else if bad != "" {
+						r.Fail(label, r.W.Pos(rs.Pos()), bad)
+					} else {
+						r.Fail(label, r.W.Pos(rs.Pos()), "the walk over the input no longer both appends and files transactions")
+					}
+				}
 				if inputOrder {
 					r.OK("sortEthSignTyTx keeps non-eth transactions in input order", r.W.Pos(ordPos), "appended inside the single range over the input")
 				} else {
